@@ -220,6 +220,27 @@ func (vc *VC) applyContract(fr *Frame, callee *ssa.Function, fi *FuncInfo, args 
 		}
 		vc.oblige("call.requires:"+cname+":"+label, rq.Tags, g)
 	}
+	// the callee may panic under its panics_if conditions: the caller must exclude them
+	for i, pc := range fi.C.PanicsIf {
+		g := vc.evalClause(pc.GoName, fi.C.Pkg, cargs, pre, pre)
+		allowed := "false"
+		if rfi := vc.fi; rfi != nil && len(rfi.C.PanicsIf) > 0 {
+			root := vc.curFrame
+			for root != nil && root.parent != nil {
+				root = root.parent
+			}
+			if root != nil && root.isRoot {
+				var alts []string
+				for _, rp := range rfi.C.PanicsIf {
+					alts = append(alts, vc.evalClause(rp.GoName, rfi.C.Pkg, vc.clauseArgsFrame(root), vc.entry, vc.entry))
+				}
+				allowed = or(alts...)
+			}
+		}
+		vc.oblige("call.nopanic:"+cname+":"+clauseLabel(pc, i), pc.Tags, or(not(g), allowed))
+		// past this point the callee did not panic
+		vc.assume(not(g))
+	}
 	// frame
 	locs := vc.modLocs(fi, fi.C.Modifies, cargs, pre)
 	for _, l := range locs {
@@ -352,6 +373,8 @@ func (vc *VC) gcIntrinsic(fr *Frame, inst *ssa.Function, args []SV) ([]SV, bool)
 		return []SV{scalar(sel(vc.chGet("CH:awaited", "(Array Int Bool)"), args[0].L[0]))}, true
 	case "gcAt":
 		return []SV{vc.chAt(chanElem(ptype(0)), args[0].L[0], args[1].L[0])}, true
+	case "gcSliceAt":
+		return []SV{scalar(and(eq(args[0].L[0], args[1].L[0]), eq(args[0].L[1], vc.ix(args[1].L[1], args[2].L[0]))))}, true
 	case "gcSameRef":
 		var cs []string
 		for j := range args[0].L {
@@ -566,9 +589,13 @@ func (vc *VC) copyOp(fr *Frame, c *ssa.CallCommon, args []SV) SV {
 		S := vc.def(asort, sarr[j])
 		R := vc.fresh(asort, "cpy")
 		i := "i!q"
-		body := fmt.Sprintf("(= (select %s %s) (ite (and (bvsle %s %s) (bvslt %s (bvadd %s %s))) (select %s (bvadd %s (bvsub %s %s))) (select %s %s)))",
-			R, i, d.L[1], i, i, d.L[1], n, S, s.L[1], i, d.L[1], D, i)
-		vc.assume("(forall ((" + i + " (_ BitVec 64))) (! " + body + " :pattern ((select " + R + " " + i + "))))")
+		vc.ix("x", "y")
+		// copied window (memmove semantics: the source is read before the write)
+		vc.assume(fmt.Sprintf("(forall ((%s (_ BitVec 64))) (! (=> (and (bvsle (_ bv0 64) %s) (bvslt %s %s)) (= (select %s (ix %s %s)) (select %s (ix %s %s)))) :pattern ((select %s (ix %s %s))) :pattern ((select %s (ix %s %s)))))",
+			i, i, i, n, R, d.L[1], i, S, s.L[1], i, R, d.L[1], i, S, s.L[1], i))
+		// everything outside the window keeps its value
+		vc.assume(fmt.Sprintf("(forall ((%s (_ BitVec 64))) (! (=> (not (and (bvsle %s %s) (bvslt %s (bvadd %s %s)))) (= (select %s %s) (select %s %s))) :pattern ((select %s %s))))",
+			i, d.L[1], i, i, d.L[1], n, R, i, D, i, R, i))
 		h := vc.heapGet(names[j], sorts[j])
 		vc.heapSet(names[j], sorts[j], sto(h, d.L[0], R))
 	}
